@@ -103,7 +103,7 @@ impl Monitor for C09 {
         vec![("trainings", tier.pick(6000, 120_000))]
     }
     fn rule(&self) -> &'static str {
-        "case = random layer sequence (dense / convolution / deconvolution / max-pool / feedback block, 0..4 dense layers at varying positions, dense output layer; every third network additionally gets one or two skip connections (often chained or sharing a source) and / or a loop connection over one layer) with dropout (rate from {0.1,0.5,0.9,1.0}) on a random non-empty subset of the dropout-capable layers, 4..12 training and 1..70 validation samples, 1..4 epochs, batch 1..5, SGD; with and (every 4th case) without validation data; every 8th case uses tolerance 1 so that training stops early after epoch 2; after all checks a second learn() call is made on the same network and checked the same way, followed by a learn() call with 0 (every third case: -1) epochs after which the flags must be off and predict() must equal the dropout-free twin. (1) hooked state: every forward pass of a validation sample inside learn() must see all training flags false (the flags seen by the forward passes of training samples are recorded as evidence that dropout was live, not judged), flags all false after learn() returns and before/during/after stand-alone validate()/predict(). (2) differential: a twin network without dropout receives the trained weights; the validation loss/accuracy learn() reported for its last epoch must equal validate() on the twin bit-for-bit, predict() must agree on probe inputs, and this is repeated for every prefix e <= E by deterministic re-training (prefix losses must coincide). (3) validate() right after learn() equals the last reported epoch. A case is non-trivial when the fixed-seed mask really changes the training forward pass (checked by comparing a training-mode forward with the twin). Distinct = distinct configuration descriptors."
+        "case = random layer sequence (dense / convolution / deconvolution / max-pool / feedback block, 0..4 dense layers at varying positions, dense output layer; every third network additionally gets one or two skip connections (often chained or sharing a source) and / or a loop connection over one layer, which may itself be the target of a skip connection) (every sixth case instead: a chain of equal-shape layers with a loop - mostly with input skips - over a layer that is also the target of a skip connection and sits right behind a dropout layer) with dropout (rate from {0.1,0.5,0.9,1.0}) on a random non-empty subset of the dropout-capable layers, 4..12 training and 1..70 validation samples, 1..4 epochs, batch 1..5, SGD; with and (every 4th case) without validation data; every 8th case uses tolerance 1 so that training stops early after epoch 2; after all checks a second learn() call is made on the same network and checked the same way, followed by a learn() call with 0 (every third case: -1) epochs after which the flags must be off and predict() must equal the dropout-free twin. (1) hooked state: every forward pass of a validation sample inside learn() must see all training flags false (the flags seen by the forward passes of training samples are recorded as evidence that dropout was live, not judged), flags all false after learn() returns and before/during/after stand-alone validate()/predict(). (2) differential: a twin network without dropout receives the trained weights; the validation loss/accuracy learn() reported for its last epoch must equal validate() on the twin bit-for-bit, predict() must agree on probe inputs, and this is repeated for every prefix e <= E by deterministic re-training (prefix losses must coincide). (3) validate() right after learn() equals the last reported epoch. A case is non-trivial when the fixed-seed mask really changes the training forward pass (checked by comparing a training-mode forward with the twin). Distinct = distinct configuration descriptors."
     }
     fn assumptions(&self) -> Vec<&'static str> {
         vec!["the library's dropout mask is a deterministic function of the tensor size (generator re-seeded with a constant), which makes re-training prefixes reproducible", "bit-for-bit equality is demanded because the statement is an identity (same weights, same code path, dropout off)"]
@@ -137,15 +137,42 @@ impl Monitor for C09 {
                     trial.skipacc = *rng.pick(&[Acc::Add, Acc::Mean]);
                 }
                 if !loop_c.is_empty() && rng.chance(0.6) {
-                    let b = *rng.pick(&loop_c);
-                    if trial.skips.iter().all(|(_, t)| *t != b) {
-                        trial.loops = vec![(b, b, rng.range(1, 2), rng.bool())];
-                        trial.loopacc = *rng.pick(&[Acc::Add, Acc::Mean]);
-                    }
+                    // the looped layer may itself be the target of a skip connection (its recorded
+                    // input is then the accumulated one, which the loop's input skip re-injects)
+                    let targets: Vec<usize> = loop_c.iter().cloned().filter(|b| trial.skips.iter().any(|(_, t)| t == b)).collect();
+                    let b = if !targets.is_empty() && rng.bool() { *rng.pick(&targets) } else { *rng.pick(&loop_c) };
+                    trial.loops = vec![(b, b, rng.range(1, 2), rng.bool())];
+                    trial.loopacc = *rng.pick(&[Acc::Add, Acc::Mean]);
                 }
                 if (!trial.skips.is_empty() || !trial.loops.is_empty()) && trial.shapes().is_ok() && build(&trial, None).is_ok() {
                     structure = format!("{}{}", if trial.skips.is_empty() { "" } else { "skip " }, if trial.loops.is_empty() { "" } else { "loop" });
                     base = trial;
+                }
+            }
+        }
+        // every sixth case: a chain of equal-shape layers with a loop over one layer (b >= 1) that
+        // is also the target of a skip connection; the layer in front of it gets dropout below
+        let mut force_dropout_at: Option<usize> = None;
+        if idx % 6 == 4 {
+            let acts = [Act::Tanh, Act::Sigmoid, Act::Leaky, Act::Relu, Act::Linear];
+            let depth = rng.range(3, 5);
+            let chain_cfg = chain(&mut rng, (idx / 6 % 2) as usize, depth, &acts, false, true);
+            if let Ok(sh) = chain_cfg.shapes() {
+                let nl = chain_cfg.layers.len();
+                let cands: Vec<usize> = (1..nl - 1).filter(|b| sh[*b].0 == sh[*b].1 && !sh[*b].2).collect();
+                if !cands.is_empty() {
+                    let b = *rng.pick(&cands);
+                    let a = rng.range(0, b - 1);
+                    let mut t = chain_cfg.clone();
+                    t.skips = vec![(a, b)];
+                    t.skipacc = *rng.pick(&[Acc::Add, Acc::Mean, Acc::Sub]);
+                    t.loops = vec![(b, b, rng.range(1, 2), rng.chance(0.8))];
+                    t.loopacc = *rng.pick(&[Acc::Add, Acc::Mean]);
+                    if t.shapes().is_ok() && build(&t, None).is_ok() {
+                        base = t;
+                        structure = "skip loop".to_string();
+                        force_dropout_at = Some(b - 1);
+                    }
                 }
             }
         }
@@ -169,6 +196,12 @@ impl Monitor for C09 {
                 break;
             }
         }
+        if let Some(k) = force_dropout_at {
+            if !placed.iter().any(|(i, _)| *i == k) && set_dropout(&mut cfg.layers[k], Some(0.5)) {
+                placed.push((k, 0.5));
+                placed.sort_by_key(|p| p.0);
+            }
+        }
         let epochs = rng.range(1, 4);
         let batch = rng.range(1, 5);
         let n_train = rng.range(4, 12);
@@ -190,6 +223,11 @@ impl Monitor for C09 {
         let dense_positions: Vec<usize> = cfg.layers.iter().enumerate().filter(|(_, l)| matches!(l, LCfg::Dense { .. })).map(|(i, _)| i).collect();
         let desc = format!("{} | dropout at {:?} | E{} B{} train{} val{}", cfg.describe(), placed, epochs, batch, n_train, if with_val { n_val } else { 0 });
         let mut out = Out::new(desc.clone());
+        if let Some((b, _, _, true)) = cfg.loops.first().cloned() {
+            if b >= 1 && cfg.skips.iter().any(|(_, t)| *t == b) && placed.iter().any(|(i, _)| *i + 1 == b) {
+                out.count("loops_with_input_skips_on_a_skip_target_behind_a_dropout_layer", 1);
+            }
+        }
         if !structure.is_empty() {
             out.count("networks_with_a_skip_or_loop_connection", 1);
             out.cover("extra_structure", structure.trim().to_string());
